@@ -13,9 +13,9 @@ TB = ("Trusted: Coq 8.16.1 kernel + vm_compute (primitive floats); hand-written 
 SK = "Theorems about the exchange skeleton hold for EVERY decision function and every number type; "
 
 CHECKS = {
-    "C01": ("Coq proof by invariant + induction over operation lists (exchange skeleton, every decision function; server generic in the exchange) + step-wise correspondence",
-            SK + "c01_fills_only_from_resting_book / c01_unquoted_keeps_resting / c01_admitted_rest_after_tick: a tick's fills come only from orders resting before it, priced/dated from that tick's quote for their symbol; server: a tick matches exactly the row of the clock date and the clock advances by one per tick (any interleaving), with increasing dates later rows are dated strictly later. Every run compares exchange and server steps of both services with the model from the implementation's own pre-state.",
-            TB + "The end-to-end 'strictly later' sentence is the composition of three proved facts (stated in Props/C01.v), not one theorem; dataset rows carrying their own date is a premise.", "3/C01"),
+    "C01": ("Coq proof by invariant + induction over operation lists (exchange skeleton, every decision function; server generic in the exchange); end-to-end theorem by ghost-tag instrumentation with erasure (refinement) + step-wise correspondence",
+            SK + "c01_fills_only_from_resting_book / c01_unquoted_keeps_resting / c01_admitted_rest_after_tick: a tick's fills come only from orders resting before it, priced/dated from that tick's quote for their symbol; server: a tick matches exactly the row of the clock date and the clock advances by one per tick (any interleaving), with increasing dates later rows are dated strictly later. END TO END as one theorem (c01_end_to_end; instances c01_uist_end_to_end / c01_jura_end_to_end over datasets built by Penelope::add_quote): orders carry a ghost tag — the clock date their backtest showed at submission — through the same polymorphic skeleton; erasing the tags gives back the model compared with the code (c01_tagged_run_erases); for every history over any number of backtests, if no tick follows a has_next=false answer, every fill is dated strictly later than its order's tag; c01_after_end_not_strict shows the caveat is necessary. Every run compares exchange and server steps of both services, and the datasets themselves (Model/Penelope.v's load vs the real Penelope), with the model from the implementation's own pre-state.",
+            TB + "The ghost tags exist only in the model (erasure theorem ties them to the untagged model).", "3/C01, 8.2"),
     "C02": ("Coq proof (concrete Uist decision + master tick lemma, every Num F) + step-wise bit-exact correspondence",
             "c02_fires_iff (against an independently written ShouldFill), c02_trade_fields, c02_tick: fills are exactly one per firing resting order in book order, non-firing/unquoted orders rest unchanged; never panics. Holds for every number type with no arithmetic law assumed, hence for the IEEE instance compared bit-for-bit with UistV1 on every run (all 6 types x price relation x quoted? classes reported in evidence).",
             TB, "3/C02"),
@@ -25,15 +25,15 @@ CHECKS = {
     "C04": ("Coq proof: exact per-operation cash law (every Num F) + ledger by induction over all histories (R) + step-wise correspondence; one open known finding",
             "c04_step_cash_exact, c04_step_event_exact (IEEE-exact, every Num F), c04_ledger over all histories at R. The code as it is carries the recorded defect q_liq_fail_debit (failed liquidation request <= cash debits it): c04_refuted_q_liq_fail_debit is the witness, listed in known_findings.txt; the check reports it as KNOWN-FINDING and reports any other deviation as a violation.",
             TB + R_AX + "IEEE rounding in the summed ledger is outside c04_ledger (the step law is exact).", "3/C04"),
-    "C05": ("Coq proof: step laws (every Num F) + reconciliation of holdings/pending with the log by induction over all histories (R) + step-wise correspondence",
-            "c05_holdings_reconcile, c05_pending_reconcile, c05_no_zero, c05_log_step, c05_with_pending.",
-            TB + R_AX + "exact-zero clauses are proved over R; for whole-share quantities below 2^53 float addition is exact, which is observed by the bit-exact correspondence, not proved.", "3/C05"),
+    "C05": ("Coq proof: step laws (every Num F) + reconciliation of holdings/pending with the log by induction over all histories (R) + IEEE exactness for whole shares (Flocq) + step-wise correspondence",
+            "c05_holdings_reconcile, c05_pending_reconcile, c05_no_zero, c05_log_step, c05_with_pending at R; and at the IEEE instance for whole shares (Props/C05float.v, via Flocq): binary64 +, -, ==0 are exact on integer-valued floats below 2^53, lifted to book_trade and whole trade lists — c05f_holdings_are_bought_minus_sold: the float holdings ARE bought minus sold and a flat position is absent, no rounding.",
+            TB + R_AX + "Props/C05float.v additionally depends on the specification axioms the standard library declares for primitive floats and 63-bit integers (FloatAxioms.add_spec, sub_spec, eqb_spec, opp_spec, of_uint63_spec, Prim2SF_valid, SF2Prim_Prim2SF, Prim2SF_SF2Prim; Uint63.add_spec, sub_spec, lsl_spec, lsr_spec, lor_spec, ltb_spec, leb_spec, eqb_refl, eqb_correct, of_to_Z), listed by name in the evidence. Fractional quantities: the [R] theorems stand, the gap is rounding.", "3/C05, 8.2"),
     "C06": ("Coq proof: gate characterised for every broker state and all six order types (every Num F); both client kinds + step-wise correspondence with eager and lazy harness clients",
             "c06_gate_iff (forward iff the four conditions; never a panic, for a quoted symbol), c06_refusal_inert, c06_forward_once, c06_delivered_any_client. Every run drives send_order through an eager and a lazily polled client and compares what reached the exchange.",
             TB + "'well-formed' is read as 'for a symbol with a last-seen quote' (the code unwraps the quote; modelled as Panic, excluded by premise). The reqwest Client is represented by an in-process lazy client.", "3/C06"),
     "C07": ("Coq proof: clock lemma by induction over all interleavings, generic in the exchange; loop termination with fuel + step-wise correspondence with shadow exchange",
-            "c07_tick, c07_clock_after_history, c07_now, c07_fetch_quotes, c07_loop_count, c07_loop_terminates for both services (same generic model).",
-            TB + "Mutex atomicity of handlers is read off the code.", "3/C07"),
+            "c07_tick, c07_clock_after_history, c07_now, c07_fetch_quotes, c07_loop_count, c07_loop_terminates for both services (same generic model); the datasets are those Penelope::add_quote builds (Model/Penelope.v): c07_dataset_dates (distinct dates in order of first appearance, for every loading script), c07_dataset_dates_increasing, c07_dataset_invariant, c07_dataset_rows_own_date, c07_dataset_shows_last_added. Every run also compares the model's load of each scenario's script with what the real Penelope shows.",
+            TB + "Mutex atomicity of handlers is read off the code.", "3/C07, 8.2"),
     "C08": ("Coq proof: id freshness invariant and noninterference by simulation over all interleavings, generic in the exchange + step-wise correspondence",
             "c08_fresh_ids, c08_create_spec, c08_step_frame, c08_step_local, c08_noninterference, c08_unknown_backtest/_dataset.",
             TB + "Mutex atomicity of handlers is read off the code; HTTP 400 mapping is C20's handler layer.", "3/C08"),
@@ -59,20 +59,20 @@ CHECKS = {
             "c15_scan, c15_bounds, c15_monotone, c15_calculate (value is the minimum over i <= j; reported dates realise it, start <= end).",
             TB + R_AX, "3/C15"),
     "C16": ("Coq proof: composition model (strategy + broker + eager client + Uist server + exchange): run() performs exactly N updates by the server clock lemma; ncf ledger and 'no value from trading' invariant at R + step-wise correspondence and direct reading of whole run() calls",
-            "c16_run_walks_dataset, c16_update_is_one_tick, c16_run_fuel_irrelevant (termination after exactly N updates, snapshot dates = clock after each tick), c16_cash_flow over all histories, c16_trading_creates_no_value + c16_fills_at_constant_price (constant zero-spread prices: snapshot value = cash deposited). init / update / withdrawals are compared step by step with the model; whole run() calls are judged by the direct reading (history length, dates, values, ncf).",
-            TB + R_AX + "PARTIAL: 'every snapshot equals the cash deposited' is the composition of three proved facts (worth invariant per update, fills at constant price, total value = worth), not one end-to-end theorem; intermediate hash orders inside one run() call are not observable, so run() is not model-checked step by step.", "3/C16"),
-    "C17": ("Coq proof for every admissible sort result and every batch size (skeleton, every decision function) + the sort specification checked on every admission of every trace",
-            SK + "c17_admission, c17_sells_get_smaller_ids, c17_ids_grow_with_admission, c17_fills_in_book_order, c17_book_sorted_always hold for every permutation of the buffer that puts sells first. slice::sort_by with this non-total comparator is specified (sells_first + permutation), not modelled: the boolean check is evaluated inside Coq on every observed admission (batch sizes 0..65 in all arrangement classes quick; up to 4097 thorough).",
-            TB + "PARTIAL: the behaviour of std's sort_by on a comparator that is not a total order is validated by test per run, not proved.", "3/C17"),
+            "c16_run_walks_dataset, c16_update_is_one_tick, c16_run_fuel_irrelevant (termination after exactly N updates, snapshot dates = clock after each tick), c16_cash_flow over all histories, c16_constant_prices_end_to_end — ONE theorem about the full composition: on an N-date dataset with constant zero-spread prices (gaps allowed) init(c) then run() performs N updates, records N snapshots, every snapshot's value equals c, for every weight map, cost list, hash order and sort oracle (c16_constant_prices_with_withdrawals: minus successful plain withdrawals); the system invariant is a state property established by the fresh start. init / update / withdrawals are compared step by step with the model; whole run() calls are judged by the direct reading (history length, dates, values, ncf).",
+            TB + R_AX + "Intermediate hash orders inside one run() call are not observable, so whole run() calls are judged by the direct reading, init/update step by step against the model. The value theorem is over the reals.", "3/C16, 8.2"),
+    "C17": ("Coq proof for every admissible sort result and every batch size (skeleton, every decision function) + exact Gallina model of the standard library's stable sort (insertion sort / driftsort) proved to satisfy the specification for the exchanges' comparator at every length + exact admission order compared on every trace",
+            SK + "c17_admission, c17_sells_get_smaller_ids, c17_ids_grow_with_admission, c17_fills_in_book_order, c17_book_sorted_always hold for every permutation of the buffer that puts sells first. slice::sort_by with this first-argument-only comparator is outside sort_by's contract, so Model/Sort.v transcribes what the installed std (rustc 1.95.0) does, function by function (insertion_sort_shift_left up to 20; driftsort: run detection, powersort merge tree, logical merges, merge through scratch, stable quicksort with pivot selection and the equal-partition branch, small_sort_general, the order-violation panic), generic in element type, comparator and size_of; Props/C17sort.v: the result is a permutation (c17s_result_is_permutation), sells first (c17s_sells_first), the sort never panics for this comparator (c17s_total), closed form up to 20 (sells reversed, then buys), and the oracle-free tick refines the oracle tick (c17s_tick_std_refines, c17s_run_std_refines) and never rejects. Every admission of every trace is compared with the model's exact order (aspect sort_exact, size_of::<Order>() as observed); thorough tier: sortval/run.sh compares the model with the real sort_by on 30 000+ inputs, nine comparator families (inconsistent ones included).",
+            TB + "The transcription of std's sort is tied to the installed toolchain by the validation (32 075 of 32 075 inputs identical, re-run in the thorough tier) and by the per-run exact-order comparison; a different std version could sort differently, which those comparisons would show.", "3/C17, 8.6"),
     "C18": ("Coq proof (concrete Jura decision + lifecycle through the master tick lemma, every Num F) + step-wise bit-exact correspondence",
             "c18_ioc_first_attempt / _after_attempt / _lifecycle_*, c18_gtc, c18_trigger_decision (against independent ShouldFire), c18_trigger_lifecycle (child: fresh id, announced, not fillable on the same tick), c18_fill_fields.",
             TB + "limit_px / sz strings are modelled by their parse::<f64>() value (observed); Alo and unparsable strings are modelled as panics and excluded by premise.", "3/C18"),
-    "C19": ("Coq proof: unbounded date-only lemma + complete vm_compute sweep of 84 006 days lifted by forallb_forall; exhaustive model/code comparison",
-            "c19_date_only for every timestamp; c19_spec (bound 1970–2199 stated in the theorem) by a kernel-evaluated complete sweep against an independently written calendar spec; c19_calendar ties Hinnant's formula to the day-by-day Gregorian calendar. Every run compares the model with the time crate and schedule/mod.rs on every day of the range at several times of day.",
-            "Trusted: Coq kernel + vm_compute; the time crate's calendar is compared exhaustively on the range, not modelled beyond it.", "3/C19"),
+    "C19": ("Coq proof, unbounded in Z: date-only lemma; spec equivalence by a complete vm_compute sweep of one 400-year period (146 097 days) lifted to every day by periodicity of the Gregorian calendar; exhaustive model/code comparison on that period plus blocks across the time crate's range",
+            "c19_date_only and c19_spec for EVERY timestamp (pre-1970 included); c19_calendar_epoch / c19_calendar_next characterise the model's calendar as the proleptic Gregorian one on every day; c19_calendar_period (400 years = 146 097 days = whole weeks). Every run compares the model with the time crate and schedule/mod.rs on every day 1970-2369 at several times of day and on blocks spread over years -9999..9999 (negative timestamps at non-midnight times), and reads the property directly with Python's calendar.",
+            "Trusted: Coq kernel + vm_compute (two sweeps); the time crate's calendar is compared on one full period and sampled blocks, not modelled. Timestamps beyond the time crate's range make DateTime panic in the code: outside 'the supported range'.", "3/C19, 8.2"),
     "C20": ("Coq proof: JSON-tree round trips for every message type of both services + handler layer faithful over all request sequences; three-way correspondence (in-process / actix with real JSON / model)",
-            "c20_transport_faithful (decoded response stream = in-process result stream, every request sequence), c20_status_400_iff_none, c20_rt_* (17 message types). Every run executes each scenario in-process and through actix_web::test with real JSON bodies and compares them (structure exact, floats 1e-12, 400 exactly at None), compares the HTTP run step by step with the server model, and compares every JSON body as a tree with the model's encoders/decoders.",
-            TB + "PARTIAL BY NATURE: serde_json's text layer, actix routing/extractors and the mutex are exercised, not modelled; the transport theorem is stated for the Uist service's typed results and, for Jura, at the level of the wire types (strings for px/sz).", "3/C20"),
+            "c20_transport_faithful (Uist) and c20_jura_transport_faithful (Jura, generic in the exchange, over the endpoints http/jura.rs mounts): decoded response stream = in-process result stream for every request sequence; c20_status_400_iff_none / c20_jura_status_400_iff_none; c20_rt_* (17 message types). Every run executes each scenario in-process and through actix_web::test with real JSON bodies and compares them (structure exact, floats 1e-12, 400 exactly at None), compares the HTTP run step by step with the server model, and compares every JSON body as a tree with the model's encoders/decoders.",
+            TB + "PARTIAL BY NATURE: serde_json's text layer, actix routing/extractors and the mutex are exercised, not modelled; the Jura transport theorem is at the level of the wire types (strings for px/sz).", "3/C20"),
 }
 
 NOT_YET = {}
